@@ -404,13 +404,30 @@ type workerProc struct {
 }
 
 type tailBuffer struct {
-	mu  sync.Mutex
-	buf []byte
+	mu    sync.Mutex
+	buf   []byte
+	crash []byte // the first 16 KiB from the first "panic: " / "fatal error: " on (a runtime traceback can push it out of the tail)
+	inCr  bool
 }
 
 func (t *tailBuffer) Write(p []byte) (int, error) {
 	t.mu.Lock()
 	defer t.mu.Unlock()
+	if !t.inCr && len(t.crash) == 0 {
+		i := bytes.Index(p, []byte("fatal error: "))
+		if j := bytes.Index(p, []byte("panic: ")); j >= 0 && (i < 0 || j < i) {
+			i = j
+		}
+		if i >= 0 {
+			t.inCr = true
+			t.crash = append(t.crash, p[i:]...)
+		}
+	} else if t.inCr && len(t.crash) < 16<<10 {
+		t.crash = append(t.crash, p...)
+	}
+	if len(t.crash) > 16<<10 {
+		t.crash = t.crash[:16<<10]
+	}
 	t.buf = append(t.buf, p...)
 	if len(t.buf) > 1<<18 {
 		t.buf = append([]byte(nil), t.buf[len(t.buf)-(1<<17):]...)
@@ -420,6 +437,9 @@ func (t *tailBuffer) Write(p []byte) (int, error) {
 func (t *tailBuffer) String() string {
 	t.mu.Lock()
 	defer t.mu.Unlock()
+	if len(t.crash) > 0 && !bytes.Contains(t.buf, t.crash[:min(len(t.crash), 200)]) {
+		return string(t.crash) + "\n[...]\n" + string(t.buf)
+	}
 	return string(t.buf)
 }
 
